@@ -157,7 +157,7 @@ def main(tier, seed):
     if tier != "quick":
         plans.append(dict(max_cmds=3, max_edits=0, tz="America/St_Johns"))
     # ... nor on how the root folder is spelled on the command line: '.', 'dir/.', 'dir/', './dir'
-    for sp in ("dot", "slashdot") + (("slash", "rel") if tier != "quick" else ()):
+    for sp in ("dot", "slashdot", "symlink") + (("slash", "rel") if tier != "quick" else ()):
         plans.append(dict(max_cmds=2 if tier == "quick" else 3, max_edits=0, spell=sp))
     for pl in plans:
         meta = dict(alpha="c06", oracles=["c06"], cmds=0, edits=0, **pl)
